@@ -133,3 +133,21 @@ Theorem C18_frame_tables_frozen :
   TablesCur.segment_to_quintant_tab = TablesRef.segment_to_quintant_tab.
 Proof. exact frame_tables_frozen. Qed.
 Print Assumptions C18_frame_tables_frozen.
+
+(* ---- Interval model soundness: the executable interval instance (used by the correspondence check) encloses the
+   ideal-real instance about which the theorems of this file speak.  [encl i x] = the real x lies in the interval i;
+   [sound_opt rel a b] = whenever the interval run answers [Some], the real run answers [Some] with a related value
+   (the interval run may give up with [None], never answer differently). ---- *)
+From A5 Require Import Num.IvInst Num.IvSound Geo.IvSoundGeo Geo.IvSoundCell.
+
+Theorem C18_interval_nearest_sound : forall t p t' p',
+  encl t t' -> encl p p' ->
+  sound_opt eq (find_nearest_origin IvInst t p) (find_nearest_origin RInst t' p').
+Proof. exact find_nearest_origin_sound. Qed.
+Print Assumptions C18_interval_nearest_sound.
+
+Theorem C18_interval_haversine_sound : forall t p t2 p2 t' p' t2' p2',
+  encl t t' -> encl p p' -> encl t2 t2' -> encl p2 p2' ->
+  encl (haversine IvInst t p t2 p2) (haversine RInst t' p' t2' p2').
+Proof. exact haversine_sound. Qed.
+Print Assumptions C18_interval_haversine_sound.
